@@ -1,19 +1,20 @@
 """C12 - activation state machine: one finalisation per demand-active, input gated.
 MC (Activation.tla, all histories) -> Gen (all server sequences of length N, an input attempt of
 every kind after every step) -> harness (real RdpClient) -> TV (Trace_Activation)."""
+import hashlib
 import json
 import os
 from .. import core, activation, selftest
 
 
+IN_STEPS = [{"in": i} for i in activation.INPUTS]     # shared by all plans (several 100 000 of them in the thorough tier)
+
+
 def with_inputs(hist, k):
-    steps = []
-    for i in activation.INPUTS:
-        steps.append({"in": i})
+    steps = list(IN_STEPS)
     for m in hist:
         steps.append({"srv": m})
-        for i in activation.INPUTS:
-            steps.append({"in": i})
+        steps.extend(IN_STEPS)
     if k % 7 == 0:
         steps.append({"shutdown": True})
     return steps
@@ -160,7 +161,7 @@ def run(tier, seed):
         cov = {"states": mc.distinct, "transitions": mc.generated,
                "traces_validated_against_impl": accepted,
                "samples": samples,
-               "evaluations": len(plans), "distinct_nontrivial": len({json.dumps(p["steps"], sort_keys=True) for p in plans}),
+               "evaluations": len(plans), "distinct_nontrivial": len({hashlib.md5(json.dumps(p["steps"], sort_keys=True).encode()).digest() for p in plans}),
                "rule": "every behaviour of the Activation model with %d server steps (TLC, exhaustive over one message per letter plus parameter variants) "
                        "+ %d random walks of 60 steps, an input attempt of each of 5 kinds after every step; distinct = distinct step sequences" % (depth, len(walks)),
                "events_validated": nev, "gen_states": gen.distinct, "mc_actions": {k: list(x) for k, x in mc.actions.items()},
